@@ -55,6 +55,9 @@ ASSUMPTIONS = [
     "HourlyModel.from_dict; legacy daily models are excluded (from_dict always builds current settings: finding D5 of C01); "
     "for hourly models baseline_metrics is set to None before to_dict (re-serialising loaded metrics is C01's business)",
     "the hourly settings trees declare no developer-only field: the lock clause is vacuous there (reported in coverage)",
+    "update_daily_settings(obj, dict) is an input form for DailySettings / DailyLegacySettings (the library itself relies on it, "
+    "with UPPER-case keys); for BillingSettings only the lock is checked through it (the helper rebuilds the object as "
+    "DailyLegacySettings, which is outside the statement: the billing model family does not use BillingSettings)",
     "attribute assignment after construction is treated as an attempt to change a setting: it must raise or leave the value unchanged "
     "for developer-only leaves of an object built without developer mode (in-place mutation of list values is not covered)",
 ]
@@ -72,6 +75,13 @@ TARGETS = {
     "HourlySolarSettings": ("HourlySolarSettings", "HourlySolarSettings", ["kwargs", "validate", "nested_object", "model_object"]),
     "HourlyNonSolarSettings": ("HourlyNonSolarSettings", "HourlyNonSolarSettings", ["kwargs", "validate", "nested_object", "model_object"]),
     "HourlyModel": ("BaseHourlySettings", "BaseHourlySettings", ["model"]),
+}
+
+# forms for which only the lock / invalid-rejected clauses apply (acceptance of valid input is not demanded)
+LOCK_ONLY_FORMS = {
+    # update_daily_settings() rebuilds a BillingSettings object as DailyLegacySettings (isinstance dispatch), so the billing
+    # segment_minimum_count=3 then trips the lock; BillingSettings is only used by the unreleased BillingWeightedModel
+    ("BillingSettings", "update"),
 }
 
 _TABLE = None
@@ -462,7 +472,7 @@ def run_overrides(case):
     overrides_dev_field = any(fam_fields.get(".".join(p[:i + 1]), {}).get("developer") for p, _ in overrides for i in range(len(p)))
     sets_devmode = [v for p, v in overrides if p == ["developer_mode"]]
     related_form = ":" in form
-    strict_accept = not related_form
+    strict_accept = not related_form and (target, form) not in LOCK_ONLY_FORMS
 
     # ---- probe: does the library resolve this spelling to the field / to the developer_mode flag?
     eff_field, eff_dev = True, True
@@ -494,9 +504,12 @@ def run_overrides(case):
             return {"rejected": "override of a block and of a field inside it"}
         stats["constructions"] += 1
         dev_req = devmode == "on" or any(v is True for v in sets_devmode)
-        key = {"target": target, "field": dotted, "form": form, "dev": devmode}
+        key = {"family": fam, "field": dotted}
         ctx = f"{target} form={form} spelling={spelling} developer_mode={devmode} overrides={case['overrides']}"
         if o["ok"]:
+            stats["accepted"] = stats.get("accepted", 0) + 1
+            if status == INVALID and not unknown_field and (spelling == "declared" or eff_field):
+                stats["oracle_must_reject_invalid"] = stats.get("oracle_must_reject_invalid", 0) + 1
             dump = o["dump"]
             res_fam = o["cls"] if o["cls"] in t["families"] else fam
             lock_fam = fam if not hourly else res_fam
@@ -504,12 +517,13 @@ def run_overrides(case):
             changed = _dev_leaf_diffs(lock_fam, dump)
             # ---- (ii) lock, on the result
             if not hourly:
+                stats["oracle_lock_on_result"] = stats.get("oracle_lock_on_result", 0) + 1
                 if changed and not reported_dev:
                     viol.append({"clause": "lock_bypassed", "key": {"target": target, "form": form, "changed": ",".join(changed)[:120]},
                                  "detail": f"accepted without developer mode but developer-only settings differ from the approved "
                                            f"constants: {[(p, sr.get_path(dump, p.split('.'))) for p in changed][:6]} | {ctx}"})
                 if reported_dev and not dev_req:
-                    viol.append({"clause": "devmode_not_explicit", "key": {"target": target, "form": form, "field": dotted},
+                    viol.append({"clause": "devmode_not_explicit", "key": {"family": fam, "form": form, "field": dotted},
                                  "detail": f"result reports developer_mode=True although the input never asked for it | {ctx}"})
                 if (not dev_req and status == VALID and touches_dev and not changed and not unknown_field
                         and (spelling == "declared" or eff_field) and not related_form):
@@ -523,6 +537,7 @@ def run_overrides(case):
             # ---- accepted means applied (declared spelling)
             applied = None
             if status == VALID and not unknown_field:
+                stats["oracle_value_applied"] = stats.get("oracle_value_applied", 0) + 1
                 applied = all(_effect_ok(specs[".".join(p)], sr.get_path(dump, p), norm[".".join(p)]) for p, _ in overrides)
                 if not applied and spelling == "declared" and strict_accept and not (touches_dev and not dev_req and not hourly):
                     viol.append({"clause": "value_not_applied", "key": dict(key, value=labels),
@@ -531,9 +546,16 @@ def run_overrides(case):
             if dev_req and not hourly and devmode == "on" and not reported_dev and (spelling == "declared" or eff_dev):
                 viol.append({"clause": "devmode_not_recorded", "key": {"target": target, "form": form},
                              "detail": f"developer_mode=True was passed and accepted but the settings report {dump.get('developer_mode')!r} | {ctx}"})
+            if status == VALID and not unknown_field and strict_accept and (hourly or dev_req or not overrides_dev_field):
+                stats["oracle_must_accept_valid"] = stats.get("oracle_must_accept_valid", 0) + 1
             beh.append(["ok", o["cls"], applied, bool(changed), o.get("printed")])
         else:
             # ---- valid values are accepted: (ii) with developer mode, (iii) non-developer fields without it
+            stats["rejected:" + o["kind"].split(":")[0]] = stats.get("rejected:" + o["kind"].split(":")[0], 0) + 1
+            if status == INVALID and not unknown_field:
+                stats["oracle_must_reject_invalid"] = stats.get("oracle_must_reject_invalid", 0) + 1
+            if not hourly and not dev_req and status == VALID and touches_dev:
+                stats["oracle_locked_change_rejected"] = stats.get("oracle_locked_change_rejected", 0) + 1
             must_accept = False
             if status == VALID and not unknown_field and strict_accept:
                 if hourly:
@@ -543,6 +565,7 @@ def run_overrides(case):
                 elif not overrides_dev_field:
                     must_accept = spelling == "declared" or bool(eff_field)
             if must_accept:
+                stats["oracle_must_accept_valid_but_rejected"] = stats.get("oracle_must_accept_valid_but_rejected", 0) + 1
                 clause = "valid_rejected_in_developer_mode" if (dev_req and not hourly and overrides_dev_field) else "valid_rejected"
                 viol.append({"clause": clause, "key": dict(key, value=labels, how=o["kind"]),
                              "detail": f"valid value rejected: {o['exc']}: {o['msg']} | {ctx}"})
@@ -809,6 +832,8 @@ def run(tier, seed):
     t = table()
     cov["constructions"] = sum(e.stats.get("constructions", 0) for e in exps)
     cov["documents"] = sum(e.stats.get("documents", 0) for e in exps)
+    cov["oracle_applications"] = {k: sum(e.stats.get(k, 0) for e in exps)
+                                  for k in sorted({k for e in exps for k in e.stats}) if k.startswith(("oracle_", "rejected:", "accepted"))}
     cov["fields_per_family"] = {f: len(v["fields"]) for f, v in t["families"].items()}
     cov["developer_only_leaves_per_family"] = {f: len(sr.developer_leaves(t, f)) for f in t["families"]}
     cov["vacuous"] = [f"lock clause (ii) is vacuous for {f}: no developer-only field is declared"
